@@ -225,8 +225,12 @@ PARSE_LOOPS = [
 
 
 def rule_e(ctx):
-    rep = ctx.report
     receive_progress(ctx)
+    extension_loops_progress(ctx)
+
+
+def extension_loops_progress(ctx):
+    rep = ctx.report
     for fspec, cspec in PARSE_LOOPS:
         f = ctx.repo.func(fspec)
         c = ctx.repo.cls(cspec)
